@@ -72,7 +72,7 @@ def _line_to_box(line_point, line_direction, box2origin, size):
     closest_point_box = box2origin[:3, 3] + box2origin[:3, :3].dot(
         direction_sign * point_in_box)
 
-    return (math.sqrt(sqr_dist), closest_point_line, closest_point_box,
+    return (math.sqrt(max(0.0, sqr_dist)), closest_point_line, closest_point_box,
             line_parameter)
 
 
